@@ -662,6 +662,11 @@ def parseFile (fmt : String) (S : Schema) (viaOpen : Bool) (bs0 : Bytes) (vcfShi
       |>.map (fun r => (r.1, r.2.drop 1))
   else parseDelimited S bs
 
+/-- a text uses CRLF line ends when every line, except possibly the last one (which may lack its terminator or
+carry a bare LF), ends in CR — and at least one does; then the CR is not part of any line -/
+def crlfText (ls : List Bytes) : Bool :=
+  ls.dropLast.all (fun l => l.getLast? = some 13) && ls.any (fun l => l.getLast? = some 13)
+
 /-! ## Specification of a whole parse (what the format says) -/
 
 /-- the formats as their documents define them (UCSC/GA4GH BED, bedGraph, ENCODE narrowPeak, chrom.sizes,
@@ -730,7 +735,7 @@ def specColumnsFrom (recs : List (List Bytes)) : Nat → List String → Option 
 removed, split on TAB -/
 def specRecords (D : DocFmt) (viaOpen : Bool) (fmt : String) (bs : Bytes) : Option (List (List Bytes)) :=
   let ls := linesOf (ensureNl bs)
-  let ls := if ls ≠ [] ∧ ls.all (fun l => l.getLast? = some 13) then ls.map stripCR else ls
+  let ls := if crlfText ls then ls.map stripCR else ls
   let ls := if viaOpen then dropHeaderLines D.comment ls else ls
   let ls := if D.interior then dataLines D.comment ls else ls
   let recs := ls.map (splitOn 9)
@@ -758,7 +763,7 @@ def specParse (fmt : String) (viaOpen : Bool) (bs : Bytes) : Option (Nat × List
 /-- FASTA as the format defines it: a '>' line starts a record, following lines are its sequence -/
 def specFasta (bs : Bytes) : Option (Nat × List Col) :=
   let ls := linesOf (ensureNl bs)
-  let ls := if ls ≠ [] ∧ ls.all (fun l => l.getLast? = some 13) then ls.map stripCR else ls
+  let ls := if crlfText ls then ls.map stripCR else ls
   if (ls.head?.bind (·.head?)) ≠ some 62 then none else
   let es := fastaEntriesAux ls none
   some (es.length, [Col.strs (es.map (·.1)), Col.strs (es.map (·.2))])
@@ -769,7 +774,7 @@ def docKline : List (String × Nat × Nat) := [("fasta2", 2, 62), ("fastq", 4, 6
 /-- k-line formats: line roles -/
 def specKline (k marker : Nat) (bs : Bytes) : Option (Nat × List Col) :=
   let ls := linesOf (ensureNl bs)
-  let ls := if ls ≠ [] ∧ ls.all (fun l => l.getLast? = some 13) then ls.map stripCR else ls
+  let ls := if crlfText ls then ls.map stripCR else ls
   if k = 0 ∨ ls.length % k ≠ 0 ∨ ls = [] then none else
   let es := chunkF k (ls.length / k) ls
   if !es.all (fun e => (e.head?.bind (·.head?)) = some marker) then none else
